@@ -32,33 +32,47 @@ TECHNIQUE = "call-site rules over the AST with backwards tracing of the subtype 
 
 META = {
     "explanation": (
-        "Every MyST-typed warning emission in the package (create_warning function and renderer method, log_warning, "
-        "Sphinx-logger calls with type=) is enumerated from the syntax tree and its subtype argument is traced backwards - "
-        "through the renderer wrapper and other wrappers (including parameter defaults), the two `warning` lambdas handed to "
-        "merge_file_level and the ParseWarnings.type field (default and every constructor call) - to a MystWarnings member that "
-        "exists in the enum, or to a literal pair in the closed non-myst set {(ref, footnote)} (R1). Warning-level emissions that "
-        "bypass the catalogue are a closed, reasoned list (R2); no catalogue member loses its last typed site (R3). Only "
-        "create_warning consults suppression; there, every path to a node builder passes the not-suppressed edge of a test whose "
-        "arguments are the emitted tag strings (wtype with default 'myst', subtype str / enum .value) in that order, and the "
-        "suppressed branch returns None without effects; _is_suppressed_warning is decided by classifying the branch facts that "
-        "dominate each exit: the loop visits the whole suppress list, no negative (or computed) answer and no break leaves the "
-        "loop under a condition on the current entry (every entry can match), every `return True` is dominated by "
-        "`type part == type` and `part after the first dot in (None, subtype, '*')`, the two parts come from split('.', 1) "
-        "guarded by `'.' in entry` resp. from (entry, None) (R4). The value returned by create_warning is only discarded, "
-        "returned by a wrapper whose call sites are judged, or put into a node list under a presence test; nothing else is "
-        "control- or data-dependent on it (R5). The log record's type/subtype and the message node's '[type.subtype]' suffix are "
-        "built from the same two strings, and the renderer wrapper forwards each argument to the parameter of the same name (R6). "
-        "Refactorings are followed rather than refused: conditional expressions count as branches, hoisted literals are looked "
-        "up, a private helper (the entry split, the match predicate, the tag strings, the node builder, the suppression test - "
-        "the latter only if it is called from create_warning alone) is analysed with its parameters substituted (two levels), "
-        "`return any(... for entry in list)` counts as the scan, and the accepted forms are judged on the union of all positive answers."
+        "R1: every MyST-typed warning emission in the package (create_warning function and renderer method, log_warning, Sphinx-logger "
+        "calls with type=) is enumerated from the syntax tree and its subtype argument is traced backwards - through the renderer "
+        "wrapper and other wrappers (incl. parameter defaults), the `warning` callbacks handed to merge_file_level, the "
+        "ParseWarnings.type field (default and every constructor call), conditional expressions, module-level constants - to a "
+        "MystWarnings member that exists in the enum, or to a literal pair in the closed non-myst set {(ref, footnote)}; logger calls "
+        "must pass the member's .value under type 'myst'. "
+        "R2: warning-level emissions without a tag (reporter.warning, logger.warning without type=) are a closed, reasoned list of "
+        "functions, closed under 'helper whose every call site is in the list' (code may be moved into private helpers). "
+        "R3: no catalogue member loses its last typed site. "
+        "R4: (a,b) _is_suppressed_warning (found by name, or by role if renamed) is called, and suppress_warnings is read, only by "
+        "create_warning, by helpers whose every call site is create_warning (transitively; indirect calls through a local alias or a "
+        "literal dispatch table are resolved), and by the tabled MathJax notice. (c) create_warning and the 'emitter' helpers it "
+        "delegates to are analysed as units: every path to a node builder (reporter.warning, system_message, _create_warning_node, "
+        "append; builders inside helpers are followed) passes the not-suppressed edge of a suppression test, or a not-None test of "
+        "an emitter's result; the suppressed branch returns None without effects; the test is asked about the emitted tag strings in "
+        "(type, subtype) order - wtype with default 'myst' and the subtype's str/.value, followed through locals, helper parameters, "
+        "tuple/NamedTuple records and hoisted constants; a fixed string is a violation. (d) in the matcher, the branch facts that "
+        "dominate each exit are classified: the scan (for loop or `return any(...)`) visits the whole list, no negative or computed "
+        "answer and no break leaves it under a condition on the current entry, every positive answer is dominated by `type part == "
+        "type` and a sub-target test, the union of the positive answers accepts exactly bare type / type.subtype / type.*, the two "
+        "parts come from split('.', 1) guarded by `'.' in entry` resp. from (entry, None); conditional expressions are branches and "
+        "split / predicate helpers are followed with parameters substituted. "
+        "R5: the value returned by create_warning (None when suppressed) is only discarded, returned by a wrapper whose call sites "
+        "are judged, or put into a node list under a presence test (`[x] if x else []`, `if x: out.append(x)`, `x or []`, or a helper "
+        "doing that with its parameter); a branch with other statements, an unguarded list placement (None among the nodes) and "
+        "`replace(old, x)` (another node's removal depends on it, unless the other branch removes it) are violations. "
+        "R6: the Sphinx log record's type=/subtype= and the '<message> [type.subtype]' text of every message node are built from "
+        "the same two tag strings (text built by a helper is followed), and the renderer wrapper forwards each argument to the "
+        "parameter of the same name."
     ),
-    "not_decided": "per-document equality of the outputs under different suppress lists (needs the documents); Sphinx's own logger-side suppression filter",
-    "trusted_base": ["CPython ast", "the wrapper/callback edges listed in the evidence", "mystsa.flow dominators (branch facts)"],
+    "not_decided": (
+        "per-document equality of the outputs under different suppress lists (needs the documents); Sphinx's own logger-side "
+        "suppression filter; how often a call site runs (a warning emitted once per group instead of once per item); idioms outside "
+        "the modelled subset answer ANALYSIS-ERROR (str.partition, flag-and-break scans, results passed to unresolvable callees)"
+    ),
+    "trusted_base": ["CPython ast", "mystsa call graph plus the alias/dispatch-table resolution in this module", "mystsa.flow dominators (branch facts)"],
     "assumptions": [
         "Sphinx's logging filter removes a suppressed record before it is emitted (sphinx.util.logging.WarningSuppressor)",
-        "create_warning is the only caller of _is_suppressed_warning (checked, R4a) and never passes None for type/subtype, so None tests of these parameters are unobservable",
+        "create_warning and its private helpers are the only callers of the suppression matcher (checked, R4a) and never pass None for type/subtype, so None tests of these parameters are unobservable",
         "names tested by a dominating branch are not reassigned between the test and the exit it guards",
+        "docutils Reporter.warning and nodes.system_message always return a node, so an emitter helper returns None exactly on its suppressed branch",
     ],
 }
 
@@ -86,6 +100,9 @@ def enum_members(corpus: Corpus) -> dict[str, str]:
     return out
 
 
+_CORPUS: list = [None]  # the corpus being analysed (set by _emissions; lets _lit follow an imported constant)
+
+
 def _lit(e: ast.expr | None, fi: FunctionInfo, _depth: int = 0) -> ast.expr | None:
     """Follow a name to the literal it is bound to: a module-level constant, or a function-local name that is
     assigned once to a literal (hoisted constants).  Anything else is returned unchanged."""
@@ -105,6 +122,12 @@ def _lit(e: ast.expr | None, fi: FunctionInfo, _depth: int = 0) -> ast.expr | No
             return e
         f = f.parent_func
     d = fi.module.const_nodes.get(e.id)
+    if d is None and e.id in fi.module.imports and _CORPUS[0] is not None:
+        mod, _, name = fi.module.imports[e.id].rpartition(".")  # a constant moved to / imported from another module
+        mm = _CORPUS[0].modules.get(mod)
+        d = mm.const_nodes.get(name) if mm is not None else None
+        if d is not None and not _is_literal(d):
+            d = None
     if d is not None and (_is_literal(d) or isinstance(d, ast.Name)):
         return _lit(d, fi, _depth + 1) if isinstance(d, ast.Name) else d
     return e
@@ -120,6 +143,128 @@ def _is_literal(e: ast.expr) -> bool:
     return False
 
 
+def _alias_targets(corpus: Corpus, call: ast.Call, fi: FunctionInfo) -> list[FunctionInfo]:
+    """Indirect calls that still name their targets: ``emit = f if c else g; emit(...)``, a dispatch table
+    ``{k: f, ...}[key](...)`` / ``TABLE[key](...)`` / ``TABLE.get(key, f)(...)`` (literal dict, local or module level)."""
+    if fi.is_lambda:
+        return []
+    out: list[FunctionInfo] = []
+
+    def bound_value(nm: str) -> ast.expr | None:
+        if nm in fi.params:
+            return None
+        stores = [n for n in fi.local_nodes() if isinstance(n, ast.Name) and n.id == nm and isinstance(n.ctx, ast.Store)]
+        if stores:
+            p = parent(stores[0])
+            if len(stores) == 1 and isinstance(p, ast.Assign) and len(p.targets) == 1 and p.targets[0] is stores[0]:
+                return p.value
+            return None
+        return fi.module.const_nodes.get(nm)
+
+    def function(d: str) -> FunctionInfo | None:
+        if d in fi.module.functions:
+            return fi.module.functions[d]
+        full = fi.module.resolve(d)
+        if "." in full:
+            mod, _, name = full.rpartition(".")
+            mm = corpus.modules.get(mod)
+            if mm is not None:
+                return mm.functions.get(name)
+        return None
+
+    def collect(v: ast.expr | None, depth: int = 0) -> bool:
+        if v is None or depth > 4:
+            return False
+        if isinstance(v, ast.IfExp):
+            return collect(v.body, depth + 1) and collect(v.orelse, depth + 1)
+        if isinstance(v, ast.Dict):
+            return bool(v.values) and all(collect(x, depth + 1) for x in v.values)
+        if isinstance(v, ast.Subscript):
+            return collect(v.value, depth + 1)
+        if isinstance(v, ast.Call) and isinstance(v.func, ast.Attribute) and v.func.attr == "get" and 1 <= len(v.args) <= 2:
+            return collect(v.func.value, depth + 1) and (len(v.args) == 1 or collect(v.args[1], depth + 1))
+        d = dotted(v)
+        if d is None:
+            return False
+        f = function(d)
+        if f is not None:
+            out.append(f)
+            return True
+        if isinstance(v, ast.Name):
+            return collect(bound_value(v.id), depth + 1)
+        return False
+
+    f0 = call.func
+    if isinstance(f0, ast.Name):
+        if function(f0.id) is not None and bound_value(f0.id) is None:
+            return []  # a direct call: the call graph's business
+        ok = collect(bound_value(f0.id))
+    elif isinstance(f0, (ast.Subscript, ast.Call)):
+        ok = collect(f0)
+    else:
+        ok = False
+    seen: set[str] = set()
+    uniq = [h for h in out if not (h.fq in seen or seen.add(h.fq))]
+    return uniq if ok else []
+
+
+def _resolver_of(corpus: Corpus):
+    def make():
+        g = get_callgraph(corpus)
+
+        def resolve(call: ast.Call, fi: FunctionInfo) -> list[FunctionInfo]:
+            out = [x for x in g.flat_targets(g.resolve_call(call, fi)) if isinstance(x, FunctionInfo)]
+            return out or _alias_targets(corpus, call, fi)
+
+        return resolve
+
+    return corpus.cache("c14-resolver", make)
+
+
+def _callers(corpus: Corpus) -> dict[str, list[tuple[FunctionInfo, ast.Call]]]:
+    """Call graph callers, plus calls through a local name bound to a function."""
+
+    def make():
+        g = get_callgraph(corpus)
+        out = {k: list(v) for k, v in g.callers().items()}
+        for fi in corpus.all_functions():
+            if fi.is_lambda:
+                continue
+            local_stores = {n.id for n in fi.local_nodes() if isinstance(n, ast.Name) and isinstance(n.ctx, ast.Store)}
+            for c in fi.local_nodes():
+                if isinstance(c, ast.Call) and ((isinstance(c.func, ast.Name) and c.func.id in local_stores) or isinstance(c.func, ast.Subscript) or (isinstance(c.func, ast.Call) and isinstance(c.func.func, ast.Attribute) and c.func.func.attr == "get")):
+                    for h in _alias_targets(corpus, c, fi):
+                        if not any(x is c for _, x in out.get(h.fq, [])):
+                            out.setdefault(h.fq, []).append((fi, c))
+        return out
+
+    return corpus.cache("c14-callers", make)
+
+
+def _only_called_from(corpus: Corpus, roots: dict[str, str], module=None) -> dict[str, str]:
+    """Close ``roots`` (fq -> reason) under "every call site is in the set": helpers that were split off."""
+    callers = _callers(corpus)
+    conf = dict(roots)
+    changed = True
+    while changed:
+        changed = False
+        for f in (module.functions.values() if module is not None else corpus.all_functions()):
+            if f.fq in conf or f.is_lambda:
+                continue
+            cs = callers.get(f.fq, [])
+            owners = set()
+            for c, _ in cs:
+                o = c
+                while o.parent_func is not None and o.fq not in conf:
+                    o = o.parent_func
+                owners.add(o.fq)
+            if cs and all(o in conf for o in owners):
+                why = sorted({conf[o] for o in owners})
+                conf[f.fq] = "helper only called from there: " + why[0]
+                changed = True
+    return conf
+
+
 class Emissions:
     """All typed emission call sites and where their subtype comes from."""
 
@@ -131,7 +276,8 @@ class Emissions:
         self.cw_meth = corpus.func("mdit_to_docutils.base:DocutilsRenderer.create_warning")
         self.log_warning = corpus.func("sphinx_ext.myst_refs:MystReferenceResolver.log_warning")
         self.sites: list[tuple[FunctionInfo, ast.Call, str]] = []  # (function, call, kind)
-        callers = self.g.callers()
+        callers = _callers(corpus)
+        self.cw_private = _only_called_from(corpus, {self.cw_func.fq: "create_warning"}, self.cw_func.module)
         for kind, target in (("create_warning()", self.cw_func), ("renderer.create_warning()", self.cw_meth), ("log_warning()", self.log_warning)):
             for fi, call in callers.get(target.fq, []):
                 self.sites.append((fi, call, kind))
@@ -139,8 +285,8 @@ class Emissions:
         for fi in corpus.all_functions():
             for call in (calls_in(fi.node, into_lambdas=False) if not fi.is_lambda else calls_in(fi.node.body)):
                 if isinstance(call.func, ast.Attribute) and call.func.attr == "warning" and kwarg(call, "type") is not None:
-                    if fi.fq == self.cw_func.fq:
-                        continue  # the implementation itself: its kwargs are checked by R6
+                    if fi.fq in self.cw_private:
+                        continue  # the implementation itself (or a helper split off it): its kwargs are checked by R6
                     self.sites.append((fi, call, "logger.warning(type=)"))
 
     def subtype_arg(self, call: ast.Call, kind: str) -> ast.expr | None:
@@ -230,7 +376,7 @@ class Emissions:
         g = self.g
         out = []
         shift = 1 if (owner.cls is not None and owner.params and owner.params[0] == "self") else 0
-        for fi, call in g.callers().get(owner.fq, []):
+        for fi, call in _callers(self.c).get(owner.fq, []):
             out.append((fi, call, shift))
         return out
 
@@ -278,6 +424,7 @@ def _param_default(fi: FunctionInfo, name: str) -> ast.expr | None:
 
 
 def _emissions(corpus: Corpus) -> Emissions:
+    _CORPUS[0] = corpus
     return corpus.cache("c14-emissions", lambda: Emissions(corpus))
 
 
@@ -339,6 +486,7 @@ def _is_forwarded_param(name: ast.Name, fi: FunctionInfo) -> bool:
 def r2_untyped_closed_list(corpus: Corpus, rep: Report, tier: str):
     rep.rule("C14.R2", "warning-level emissions that bypass the catalogue are a closed, reasoned list")
     n = 0
+    allowed = _only_called_from(corpus, dict(UNTYPED_OK))
     for fi in corpus.all_functions():
         calls = calls_in(fi.node, into_lambdas=False) if not fi.is_lambda else calls_in(fi.node.body)
         for call in calls:
@@ -352,12 +500,12 @@ def r2_untyped_closed_list(corpus: Corpus, rep: Report, tier: str):
                 continue
             n += 1
             owner = fi
-            while owner.parent_func is not None and owner.fq not in UNTYPED_OK:
+            while owner.parent_func is not None and owner.fq not in allowed:
                 owner = owner.parent_func
             k = stmt_key(fi, call, 90)
             site = fi.module.site(call)
-            if owner.fq in UNTYPED_OK:
-                rep.assumed("C14.R2", k, site, UNTYPED_OK[owner.fq])
+            if owner.fq in allowed:
+                rep.assumed("C14.R2", k, site, allowed[owner.fq])
             else:
                 rep.violation("C14.R2", k, site, f"`{short(call, 70)}` logs a warning without a MyST type/subtype: it is not in the catalogue and cannot be suppressed by tag")
     rep.expect_min("C14.R2", 4, "untyped warning-level emissions known on the pinned tree")
@@ -433,13 +581,15 @@ class _TagRoles:
 
     OK, BAD, UNKNOWN = "ok", "bad", "unknown"
 
-    def __init__(self, cw: FunctionInfo, resolver=None, n_sub: str = "subtype", n_type: str = "wtype", type_default: ast.expr | None = None, depth: int = 0):
+    def __init__(self, cw: FunctionInfo, resolver=None, n_sub: str = "subtype", n_type: str = "wtype", type_default: ast.expr | None = None, depth: int = 0, outer: "_TagRoles | None" = None, bound: dict[str, ast.expr] | None = None):
         self.cw = cw
+        self.outer, self.bound = outer, bound or {}  # a split-off helper: parameter -> expression in the caller
         self.resolver, self.n_sub, self.n_type, self.depth = resolver, n_sub, n_type, depth
         self.type_default = type_default if depth else _param_default(cw, n_type)
         self.counts: dict[str, int] = {}
         self.defs: dict[str, ast.expr] = {}
         self.tuple_defs: dict[str, tuple[ast.Call, int]] = {}
+        self._unpacked: list[tuple[list[str], str]] = []
         for n in cw.local_nodes():
             if isinstance(n, ast.Name) and isinstance(n.ctx, ast.Store):
                 self.counts[n.id] = self.counts.get(n.id, 0) + 1
@@ -455,11 +605,44 @@ class _TagRoles:
                 elif isinstance(n.value, ast.Call):
                     for i, nm in enumerate(names):
                         self.tuple_defs[nm] = (n.value, i)
+                elif isinstance(n.value, ast.Name):
+                    self._unpacked.append((names, n.value.id))
+        for names, src in self._unpacked:  # `type_str, subtype_str = tag` with `tag = _Tag(...)`
+            rec = self._record_fields(self.defs.get(src)) if self.counts.get(src) == 1 else None
+            order = rec.get("\0order") if rec else None
+            if isinstance(order, ast.Tuple) and len(order.elts) == len(names):
+                for nm, v in zip(names, order.elts):
+                    self.defs[nm] = v
+
+    def _record_fields(self, v: ast.expr | None) -> dict[str, ast.expr] | None:
+        """``v`` constructs a NamedTuple / dataclass of this module: field name -> argument expression."""
+        if not isinstance(v, ast.Call) or not isinstance(v.func, ast.Name):
+            return None
+        ci = self.cw.module.classes.get(v.func.id)
+        if ci is None or "__init__" in ci.methods or "__new__" in ci.methods:
+            return None
+        is_nt = any(b.split(".")[-1] == "NamedTuple" for b in ci.bases)
+        is_dc = any("dataclass" in unparse(d) for d in ci.node.decorator_list)
+        if not (is_nt or is_dc):
+            return None
+        fields = [s.target.id for s in ci.node.body if isinstance(s, ast.AnnAssign) and isinstance(s.target, ast.Name)]
+        if any(isinstance(a, ast.Starred) for a in v.args) or any(k.arg is None for k in v.keywords) or len(v.args) > len(fields):
+            return None
+        out = dict(zip(fields, v.args))
+        for k in v.keywords:
+            out[k.arg] = k.value  # type: ignore[index]
+        out["\0order"] = ast.Tuple(elts=[out[f] for f in fields if f in out], ctx=ast.Load())
+        return out
 
     def deref(self, e: ast.expr | None) -> ast.expr | None:
         for _ in range(10):
             if isinstance(e, ast.Name) and e.id not in self.cw.params and self.counts.get(e.id) == 1 and e.id in self.defs:
                 e = self.defs[e.id]
+            elif isinstance(e, ast.Attribute) and isinstance(e.value, ast.Name) and e.value.id not in self.cw.params and self.counts.get(e.value.id) == 1 and e.value.id in self.defs:
+                rec = self._record_fields(self.defs[e.value.id])  # tag.type of `tag = _Tag(type_str, subtype_str)`
+                if rec is None or e.attr not in rec:
+                    break
+                e = rec[e.attr]
             else:
                 break
         return e
@@ -510,6 +693,8 @@ class _TagRoles:
         e = self.deref(e)
         if e is None:
             return self.UNKNOWN, "no subtype expression"
+        if self.outer is not None and isinstance(e, ast.Name) and e.id in self.bound:
+            return self.outer.classify_sub(self.bound[e.id])
         via = self._via_helper(e, "sub")
         if via is not None:
             return via
@@ -555,6 +740,8 @@ class _TagRoles:
         default: ast.expr | None = None
         if e is None:
             return self.UNKNOWN, "no type expression"
+        if self.outer is not None and isinstance(e, ast.Name) and e.id in self.bound:
+            return self.outer.classify_type(self.bound[e.id])
         via = self._via_helper(e, "type")
         if via is not None:
             return via
@@ -599,15 +786,6 @@ class _TagRoles:
 _NODE_EFFECTS = (".append", ".extend", ".insert", ".warning", ".error", ".info", "_create_warning_node", "system_message")
 
 
-def _resolver_of(corpus: Corpus):
-    g = get_callgraph(corpus)
-
-    def resolve(call: ast.Call, fi: FunctionInfo) -> list[FunctionInfo]:
-        return [x for x in g.flat_targets(g.resolve_call(call, fi)) if isinstance(x, FunctionInfo)]
-
-    return resolve
-
-
 def _is_direct_builder(c: ast.Call) -> bool:
     d = dotted(c.func) or ""
     return d == "_create_warning_node" or d.endswith("reporter.warning") or d.split(".")[-1] == "system_message"
@@ -627,14 +805,16 @@ def _text_arg(c: ast.Call, resolver, fi: FunctionInfo) -> ast.expr | None:
     return kwarg(c, "message")
 
 
-def _node_builders(cw: FunctionInfo, resolver) -> list[tuple[ast.Call, ast.expr | None, str]]:
-    """Calls in create_warning that build the message node: (call, expression of the message text, label).
-    A private helper that builds the node from one of its parameters is followed (two levels)."""
+def _node_builders(cw: FunctionInfo, resolver, skip: set[int] | None = None) -> list[tuple[ast.Call, ast.expr | None, str]]:
+    """Calls in ``cw`` that build the message node: (call, expression of the message text, label).
+    A private helper that builds the node from one of its parameters is followed (two levels); calls whose id is
+    in ``skip`` (emitters that carry their own suppression test) are not builders."""
+    skip = skip or set()
 
     def inner(fi: FunctionInfo, depth: int) -> list[tuple[ast.Call, ast.expr | None, str]]:
         out = []
         for c in fi.local_nodes():
-            if not isinstance(c, ast.Call):
+            if not isinstance(c, ast.Call) or id(c) in skip:
                 continue
             if _is_direct_builder(c):
                 out.append((c, _text_arg(c, resolver, fi), dotted(c.func) or "?"))
@@ -645,37 +825,52 @@ def _node_builders(cw: FunctionInfo, resolver) -> list[tuple[ast.Call, ast.expr 
                 ts = resolver(c, fi)
             except Exception:
                 continue
-            if len(ts) != 1 or ts[0].is_lambda or ts[0].module is not cw.module or ts[0].fq == fi.fq:
+            if not ts or any(h.is_lambda or h.module is not cw.module or h.fq == fi.fq for h in ts):
                 continue
-            sub = inner(ts[0], depth + 1)
-            if not sub:
+            subs = [(h, inner(h, depth + 1)) for h in ts]
+            subs = [(h, s) for h, s in subs if s]
+            if not subs:
                 continue
-            bound = _bind_call(c, ts[0]) or {}
-            texts = {unparse(t) if t is not None else None for _, t, _ in sub}
             text = None
-            if len(texts) == 1 and None not in texts:
-                t = sub[0][1]
-                text = bound.get(t.id) if isinstance(t, ast.Name) else None
-            out.append((c, text, ts[0].name))
+            if len(subs) == 1 and len(ts) == 1:
+                h, sub = subs[0]
+                bound = _bind_call(c, h) or {}
+                texts = {unparse(t) if t is not None else None for _, t, _ in sub}
+                if len(texts) == 1 and None not in texts:
+                    t = sub[0][1]
+                    text = bound.get(t.id) if isinstance(t, ast.Name) else None
+            out.append((c, text, "/".join(h.name for h, _ in subs)))
         return out
 
     return inner(cw, 0)
 
 
+def _find_isw(corpus: Corpus, cw: FunctionInfo) -> FunctionInfo:
+    """_is_suppressed_warning - by name, or (renamed) the one function of the module that create_warning or a helper
+    private to it calls with the suppress-warnings setting as an argument."""
+    w = cw.module
+    if "_is_suppressed_warning" in w.functions:
+        return w.functions["_is_suppressed_warning"]
+    resolver = _resolver_of(corpus)
+    conf = _only_called_from(corpus, {cw.fq: "create_warning"}, w)
+    cands: dict[str, FunctionInfo] = {}
+    for f in w.functions.values():
+        if f.fq not in conf:
+            continue
+        for c in f.local_nodes():
+            if isinstance(c, ast.Call) and any(isinstance(x, ast.Attribute) and x.attr in ("suppress_warnings", "myst_suppress_warnings") for a in list(c.args) + [k.value for k in c.keywords] for x in ast.walk(a)):
+                for h in resolver(c, f):
+                    if h.module is w and len(h.params) >= 3:
+                        cands[h.fq] = h
+    if len(cands) != 1:
+        return w.func("_is_suppressed_warning")  # AnchorMissing
+    return next(iter(cands.values()))
+
+
 def _confined_helpers(corpus: Corpus, cw: FunctionInfo) -> dict[str, FunctionInfo]:
     """Functions of create_warning's module that are only ever called from create_warning (transitively)."""
-    g = get_callgraph(corpus)
-    callers = g.callers()
-    conf: dict[str, FunctionInfo] = {cw.fq: cw}
-    changed = True
-    while changed:
-        changed = False
-        for f in cw.module.functions.values():
-            cs = callers.get(f.fq, [])
-            if f.fq not in conf and cs and all(c.fq in conf for c, _ in cs):
-                conf[f.fq] = f
-                changed = True
-    return conf
+    conf = _only_called_from(corpus, {cw.fq: "create_warning"}, cw.module)
+    return {f.fq: f for f in cw.module.functions.values() if f.fq in conf}
 
 
 @rule("C14.R4")
@@ -683,11 +878,12 @@ def r4_suppression_confined(corpus: Corpus, rep: Report, tier: str):
     rep.rule("C14.R4", "only create_warning (and helpers private to it) consults suppression; test (on the emitted tag) precedes node creation; every suppress entry is consulted; accepted forms are type / type.sub / type.*")
     g = get_callgraph(corpus)
     w = corpus.mod("warnings_")
-    isw = w.func("_is_suppressed_warning")
     cw = w.func("create_warning")
+    _CORPUS[0] = corpus
+    isw = _find_isw(corpus, cw)
     conf = _confined_helpers(corpus, cw)
     # (a) who calls _is_suppressed_warning
-    for fi, call in g.callers().get(isw.fq, []):
+    for fi, call in _callers(corpus).get(isw.fq, []):
         k = f"{fi.fq}|calls _is_suppressed_warning"
         if fi.fq == cw.fq:
             rep.ok("C14.R4", k, fi.module.site(call))
@@ -718,26 +914,100 @@ def r4_suppression_confined(corpus: Corpus, rep: Report, tier: str):
     _check_forms(isw, rep, dotfree, resolver)
 
 
+class _Unit:
+    """create_warning, or a private helper split off it that carries its own suppression test (an *emitter*:
+    it returns the message node, or None when the warning is suppressed)."""
+
+    def __init__(self, fi: FunctionInfo, roles: "_TagRoles"):
+        self.fi, self.roles = fi, roles
+        self.emitter_calls: dict[int, ast.Call] = {}  # calls in fi that go to emitter units
+        self.result_vars: set[str] = set()  # locals holding an emitter's result (None = suppressed)
+        self.problems: list[str] = []
+        self.untested: list[tuple[ast.Call, FunctionInfo]] = []  # calls that may run a node-building helper without a test
+
+
+def _has_suppression_test(h: FunctionInfo, isw: FunctionInfo) -> bool:
+    answers = {n.targets[0].id for n in h.local_nodes() if isinstance(n, ast.Assign) and len(n.targets) == 1 and isinstance(n.targets[0], ast.Name) and any(isinstance(c, ast.Call) and dotted(c.func) == isw.name for c in ast.walk(n.value))}
+    for n in h.local_nodes():
+        if isinstance(n, ast.If) and (any(isinstance(c, ast.Call) and dotted(c.func) == isw.name for c in ast.walk(n.test)) or (_names(n.test) & answers)):
+            return True
+    return False
+
+
+def _discover_units(cw: FunctionInfo, isw: FunctionInfo, resolver, conf: dict[str, FunctionInfo]) -> list[_Unit]:
+    """create_warning and the emitters it delegates to (parameters bound to create_warning's expressions)."""
+    units: list[_Unit] = []
+    seen: set[str] = set()
+
+    def visit(fi: FunctionInfo, roles: _TagRoles, depth: int) -> None:
+        if fi.fq in seen:
+            return
+        seen.add(fi.fq)
+        u = _Unit(fi, roles)
+        units.append(u)
+        if resolver is None or depth >= 2:
+            return
+        for c in fi.local_nodes():
+            if not isinstance(c, ast.Call) or dotted(c.func) == isw.name:
+                continue
+            try:
+                ts = resolver(c, fi)
+            except Exception:
+                continue
+            ts = [h for h in ts if h.fq in conf and h.fq not in (cw.fq, isw.fq, fi.fq) and not h.is_lambda]
+            if not ts or not any(_has_suppression_test(h, isw) for h in ts):
+                continue
+            for h in ts:
+                if not _has_suppression_test(h, isw) and _node_builders(h, resolver):
+                    u.untested.append((c, h))
+            u.emitter_calls[id(c)] = c
+            p = parent(c)
+            if isinstance(p, ast.Assign) and len(p.targets) == 1 and isinstance(p.targets[0], ast.Name):
+                u.result_vars.add(p.targets[0].id)
+            elif not (isinstance(p, ast.Return) or isinstance(p, ast.Expr)):
+                u.problems.append(f"the result of `{short(c, 40)}` is used in `{short(p, 40)}` (not understood)")
+            for h in ts:
+                bound = _bind_call(c, h)
+                if bound is None:
+                    u.problems.append(f"call `{short(c, 40)}` of {h.name} uses */** arguments (not understood)")
+                    continue
+                visit(h, _TagRoles(h, resolver, "\0sub", "\0type", None, roles.depth + 1, outer=roles, bound=bound), depth + 1)
+
+    visit(cw, _TagRoles(cw, resolver), 0)
+    return units
+
+
 def _check_create_warning(cw: FunctionInfo, isw: FunctionInfo, rep: Report, resolver=None, conf: dict[str, FunctionInfo] | None = None) -> None:
-    cfg = get_cfg(cw)
-    roles = _TagRoles(cw, resolver)
     conf = conf or {}
+    units = _discover_units(cw, isw, resolver, conf)
+    totals = {"tests": 0, "builders": 0, "answers": 0}
+    for u in units:
+        _check_unit(u, cw, isw, rep, resolver, conf, totals)
+    if not totals["tests"] or not totals["answers"] or totals["builders"] < 2:
+        rep.error("C14.R4", f"create_warning shape not understood ({totals['tests']} suppression tests, {totals['builders']} node builders in {len(units)} function(s))")
+
+
+def _check_unit(u: _Unit, top: FunctionInfo, isw: FunctionInfo, rep: Report, resolver, conf: dict[str, FunctionInfo], totals: dict[str, int]) -> None:
+    cw, roles = u.fi, u.roles
+    cfg = get_cfg(cw)
     p_type, p_sub = isw.params[0], isw.params[1]
+    for msg in u.problems:
+        rep.error("C14.R4", f"{cw.qualname}: {msg}")
 
     def answer_args(c: ast.AST) -> tuple[ast.expr | None, ast.expr | None] | None:
         """If ``c`` is a call whose value is the suppression answer: the (type, subtype) expressions, in
-        create_warning's terms, that it is asked about."""
+        this function's terms, that it is asked about."""
         if not isinstance(c, ast.Call):
             return None
         if dotted(c.func) == isw.name:
             return arg_or_kw(c, 0, p_type), arg_or_kw(c, 1, p_sub)
-        if resolver is None:
+        if resolver is None or id(c) in u.emitter_calls:
             return None
         try:
             ts = resolver(c, cw)
         except Exception:
             return None
-        if len(ts) != 1 or ts[0].fq not in conf or ts[0].fq in (cw.fq, isw.fq):
+        if len(ts) != 1 or ts[0].fq not in conf or ts[0].fq in (top.fq, cw.fq, isw.fq):
             return None
         h = ts[0]
         inner = [n for n in h.local_nodes() if isinstance(n, ast.Call) and dotted(n.func) == isw.name]
@@ -767,14 +1037,18 @@ def _check_create_warning(cw: FunctionInfo, isw: FunctionInfo, rep: Report, reso
             continue
         core, flip = _strip_not(n.test)
         if not (answer_args(core) is not None or (isinstance(core, ast.Name) and core.id in answer_names)):
-            rep.error("C14.R4", f"create_warning: suppression answer is combined with other conditions in `{short(n.test, 60)}` (not understood)")
+            rep.error("C14.R4", f"{cw.qualname}: suppression answer is combined with other conditions in `{short(n.test, 60)}` (not understood)")
             return
         tests.append((n, not flip))
-    found = _node_builders(cw, resolver)
+    found = _node_builders(cw, resolver, set(u.emitter_calls))
     builders = [c for c, _, _ in found] + [n for n in cw.local_nodes() if isinstance(n, ast.Call) and (dotted(n.func) or "").endswith(".append")]
     all_calls = [n for n in cw.local_nodes() if answer_args(n) is not None]
-    if not tests or not all_calls or len(builders) < 2:
-        rep.error("C14.R4", f"create_warning shape not understood ({len(tests)} suppression tests, {len(builders)} node builders)")
+    totals["tests"] += len(tests) + len(u.emitter_calls)
+    totals["builders"] += len(builders)
+    totals["answers"] += len(all_calls)
+    if not tests and not u.emitter_calls:
+        if builders and cw is top:
+            rep.error("C14.R4", f"{cw.qualname}: builds the message node but has no suppression test and delegates to no helper that has one (shape not understood)")
         return
     for call in all_calls:
         k = f"{cw.fq}|{short(call, 80)}|arguments"
@@ -788,14 +1062,21 @@ def _check_create_warning(cw: FunctionInfo, isw: FunctionInfo, rep: Report, reso
         elif t[0] == "bad" or s[0] == "bad":
             rep.violation("C14.R4", k, site, "suppression is not tested on the emitted tag: " + "; ".join(x[1] for x in (t, s) if x[0] == "bad"))
         else:
-            rep.error("C14.R4", f"create_warning: cannot decide which tag `{short(call, 60)}` tests: " + "; ".join(x[1] for x in (t, s) if x[0] != "ok"))
+            rep.error("C14.R4", f"{cw.qualname}: cannot decide which tag `{short(call, 60)}` tests: " + "; ".join(x[1] for x in (t, s) if x[0] != "ok"))
     clear_edges = set()
+    # an emitter's result is None exactly when the warning is suppressed: a presence test of it is a clear edge
+    for n in cw.local_nodes():
+        if isinstance(n, ast.If) and (_names(n.test) & u.result_vars):
+            for pol in (True, False):
+                for tt, pp in flow_facts(n.test, pol):
+                    if any(_presence_test(tt, v) * (1 if pp else -1) > 0 for v in u.result_vars):
+                        clear_edges.add(("T" if pol else "F", n))
     for t, pos in tests:
         k = f"{cw.fq}|{short(t.test, 80)}"
         site = cw.module.site(t)
         branch = t.body if pos else t.orelse  # what runs for a suppressed warning
         if not branch:
-            rep.error("C14.R4", f"create_warning: inverted suppression test `{short(t.test, 50)}` without an else branch (not understood)")
+            rep.error("C14.R4", f"{cw.qualname}: inverted suppression test `{short(t.test, 50)}` without an else branch (not understood)")
             continue
         clear_edges.add(("F" if pos else "T", t))
         body = [s for s in branch if not isinstance(s, ast.Pass) and not (isinstance(s, ast.Expr) and isinstance(s.value, ast.Constant))]
@@ -808,9 +1089,17 @@ def _check_create_warning(cw: FunctionInfo, isw: FunctionInfo, rep: Report, reso
         if eff:
             rep.violation("C14.R4", k, site, f"a suppressed warning must return None at once; the branch also runs `{short(eff[0], 50)}`")
         elif extra:
-            rep.error("C14.R4", f"create_warning: statements before `return None` in the suppressed branch not understood: `{short(extra[0], 50)}`")
+            rep.error("C14.R4", f"{cw.qualname}: statements before `return None` in the suppressed branch not understood: `{short(extra[0], 50)}`")
         else:
             rep.ok("C14.R4", k, site)
+    test_edges = {("F" if pos else "T", t) for t, pos in tests}
+    for c, h in u.untested:
+        st = cfg.stmt_of(c)
+        k = f"{cw.fq}|{short(c, 50)}|{h.name} has no suppression test"
+        if cfg.paths_avoiding("ENTRY", st, lambda n: n in test_edges):
+            rep.violation("C14.R4", k, cw.module.site(c), f"`{short(c, 40)}` can run {h.name}, which builds the message node without a suppression test, and the call has not passed one either: a suppressed warning still reaches the doctree")
+        else:
+            rep.ok("C14.R4", k, cw.module.site(c), "the call itself is dominated by the not-suppressed edge")
     for b in builders:
         st = cfg.stmt_of(b)
         k = f"{cw.fq}|{short(b, 70)}"
@@ -1538,7 +1827,7 @@ def _presence_guarded(n: ast.Name, fi: FunctionInfo) -> bool:
     return False
 
 
-def _use_kind(n: ast.Name, fi: FunctionInfo):
+def _use_kind(n: ast.Name, fi: FunctionInfo, _depth: int = 0):
     """True if the use cannot influence anything but the presence of the node itself;
     a string (what depends on it) for a violation; None if the use is not understood."""
     var = n.id
@@ -1594,6 +1883,24 @@ def _use_kind(n: ast.Name, fi: FunctionInfo):
         return "is tested in a condition"
     if isinstance(p, ast.Return) and p.value is n:
         return True
+    if isinstance(p, ast.Call) and (n in p.args or any(k.value is n for k in p.keywords)) and _depth < 2 and _CORPUS[0] is not None:
+        # handed to a helper: what the helper does with that parameter
+        try:
+            ts = _resolver_of(_CORPUS[0])(p, fi)
+        except Exception:
+            ts = []
+        if len(ts) == 1 and not ts[0].is_lambda and ts[0].fq != fi.fq:
+            h = ts[0]
+            bound = _bind_call(p, h) or {}
+            pname = next((k for k, v in bound.items() if v is n), None)
+            stores = [x for x in h.local_nodes() if isinstance(x, ast.Name) and x.id == pname and isinstance(x.ctx, ast.Store)]
+            if pname is not None and not stores:
+                verdicts = [_use_kind(x, h, _depth + 1) for x in h.local_nodes() if isinstance(x, ast.Name) and x.id == pname and isinstance(x.ctx, ast.Load)]
+                bad = [v for v in verdicts if isinstance(v, str)]
+                if bad:
+                    return f"is handed to {h.name}, where it {bad[0]}"
+                if all(v is True for v in verdicts):
+                    return True
     return None
 
 
@@ -1630,7 +1937,7 @@ def _judge_result(em: Emissions, fi: FunctionInfo, call: ast.Call, depth: int) -
             bad = _callback_value_used(em, fi)
             return ("violation", site, bad) if bad else ("ok", site, "returned by a callback whose callers discard it")
         # another wrapper: follow its call sites
-        callers = em.g.callers().get(fi.fq, [])
+        callers = _callers(em.c).get(fi.fq, [])
         if depth > 3 or not callers:
             return "error", site, f"the result is returned by {fi.qualname}, whose call sites cannot be followed"
         for cfi, ccall in callers:
@@ -1673,7 +1980,7 @@ def _callback_value_used(em: Emissions, wrapper: FunctionInfo) -> str | None:
     """For lambdas passed as callbacks: every call of the callback must discard the value."""
     if not wrapper.is_lambda:
         return None
-    for fi, call in em.g.callers().get(wrapper.fq, []):
+    for fi, call in _callers(em.c).get(wrapper.fq, []):
         if not isinstance(parent(call), ast.Expr):
             return f"the warning callback's result is used at {fi.module.site(call)}"
     return None
@@ -1682,9 +1989,29 @@ def _callback_value_used(em: Emissions, wrapper: FunctionInfo) -> str | None:
 # -- R6 -----------------------------------------------------------------------------------
 
 
+def _lift(roles: "_TagRoles", e: ast.expr) -> tuple["_TagRoles", ast.expr]:
+    """Express a helper's parameter in its caller's terms (as far out as it goes)."""
+    for _ in range(8):
+        if isinstance(e, ast.Name) and roles.outer is not None and e.id in roles.bound:
+            e, roles = roles.bound[e.id], roles.outer
+            continue
+        d = roles.deref(e)
+        if isinstance(d, ast.Name) and d is not e:
+            e = d
+            continue
+        break
+    return roles, e
+
+
+def _is_message(roles: "_TagRoles", e: ast.expr) -> bool:
+    r, x = _lift(roles, e)
+    return r.outer is None and _is_name(x, "message")
+
+
 def _tag_parts(roles: _TagRoles, e: ast.expr | None, depth: int = 0) -> list | None:
-    """Flatten a message expression into literal text and ('v', expr) holes; None if not understood."""
-    if e is None or depth > 6:
+    """Flatten a message expression into literal text and ('v', expr, roles) holes; None if not understood.
+    A helper that builds the text is followed with its parameters bound."""
+    if e is None or depth > 8:
         return None
     if isinstance(e, ast.Constant) and isinstance(e.value, str):
         return [e.value]
@@ -1694,7 +2021,7 @@ def _tag_parts(roles: _TagRoles, e: ast.expr | None, depth: int = 0) -> list | N
             if isinstance(v, ast.Constant):
                 out.append(v.value)
             elif isinstance(v, ast.FormattedValue) and v.conversion in (-1, 115) and v.format_spec is None:
-                out.append(("v", v.value))
+                out.append(("v", v.value, roles))
             else:
                 return None
         return out
@@ -1702,10 +2029,22 @@ def _tag_parts(roles: _TagRoles, e: ast.expr | None, depth: int = 0) -> list | N
         a, b = _tag_parts(roles, e.left, depth + 1), _tag_parts(roles, e.right, depth + 1)
         return None if a is None or b is None else a + b
     if isinstance(e, ast.Name):
+        if roles.outer is not None and e.id in roles.bound:
+            return _tag_parts(roles.outer, roles.bound[e.id], depth + 1)
         d = roles.deref(e)
         if d is e:
-            return [("v", e)]
+            return [("v", e, roles)]
         return _tag_parts(roles, d, depth + 1)
+    if isinstance(e, ast.Call) and roles.resolver is not None:
+        try:
+            ts = roles.resolver(e, roles.cw)
+        except Exception:
+            ts = []
+        if len(ts) == 1 and not ts[0].is_lambda:
+            h = ts[0]
+            ret, bound = _return_expr(h), _bind_call(e, h)
+            if ret is not None and bound is not None:
+                return _tag_parts(_TagRoles(h, roles.resolver, "\0sub", "\0type", None, roles.depth + 1, outer=roles, bound=bound), ret, depth + 1)
     return None
 
 
@@ -1725,12 +2064,13 @@ def r6_tag_format(corpus: Corpus, rep: Report, tier: str):
     R = "C14.R6"
     w = corpus.mod("warnings_")
     cw = w.func("create_warning")
-    site = cw.site()
+    _CORPUS[0] = corpus
+    isw = _find_isw(corpus, cw)
     if not {"message", "subtype", "wtype"} <= set(cw.params):
         rep.error(R, "create_warning signature changed (message / subtype / wtype)")
         return
     resolver = _resolver_of(corpus)
-    roles = _TagRoles(cw, resolver)
+    units = _discover_units(cw, isw, resolver, _confined_helpers(corpus, cw))
 
     def verdict(key: str, st: tuple[str, str], s: str, okwhat: str, errwhat: str) -> None:
         if st[0] == "ok":
@@ -1741,48 +2081,61 @@ def r6_tag_format(corpus: Corpus, rep: Report, tier: str):
             rep.error(R, f"create_warning: {errwhat}: {st[1]}")
 
     # the Sphinx logger call passes the type and subtype strings
-    lw = [c for c in cw.local_nodes() if isinstance(c, ast.Call) and isinstance(c.func, ast.Attribute) and c.func.attr == "warning" and kwarg(c, "type") is not None]
+    def logger_calls(typed: bool) -> list[tuple[ast.Call, _Unit]]:
+        out = []
+        for u in units:
+            for c in u.fi.local_nodes():
+                if isinstance(c, ast.Call) and isinstance(c.func, ast.Attribute) and c.func.attr == "warning":
+                    if typed and kwarg(c, "type") is not None:
+                        out.append((c, u))
+                    elif not typed and kwarg(c, "type") is None and "logger" in unparse(c.func.value).lower():
+                        out.append((c, u))
+        return out
+
+    lw = logger_calls(True)
     if not lw:
-        untyped = [c for c in cw.local_nodes() if isinstance(c, ast.Call) and isinstance(c.func, ast.Attribute) and c.func.attr == "warning" and "logger" in unparse(c.func.value).lower()]
+        untyped = logger_calls(False)
         if len(untyped) == 1:
-            rep.violation(R, f"{cw.fq}|log record type", cw.module.site(untyped[0]), "the Sphinx log record carries no type=/subtype=: Sphinx can neither tag nor suppress it")
+            rep.violation(R, f"{cw.fq}|log record type", untyped[0][1].fi.module.site(untyped[0][0]), "the Sphinx log record carries no type=/subtype=: Sphinx can neither tag nor suppress it")
             return
     if len(lw) != 1:
         rep.error(R, f"create_warning: expected one Sphinx logger call with type=, found {len(lw)}")
         return
-    type_e, sub_e = kwarg(lw[0], "type"), kwarg(lw[0], "subtype")
-    verdict(f"{cw.fq}|log record type", roles.classify_type(type_e), cw.module.site(lw[0]), "type= is wtype, 'myst' when not given", "type= of the Sphinx log record not understood")
+    lcall, lu = lw[0]
+    lsite = lu.fi.module.site(lcall)
+    type_e, sub_e = kwarg(lcall, "type"), kwarg(lcall, "subtype")
+    verdict(f"{cw.fq}|log record type", lu.roles.classify_type(type_e), lsite, "type= is wtype, 'myst' when not given", "type= of the Sphinx log record not understood")
     if sub_e is None:
-        rep.violation(R, f"{cw.fq}|log record subtype", cw.module.site(lw[0]), "the Sphinx log record carries no subtype=: it cannot be suppressed by type.subtype")
+        rep.violation(R, f"{cw.fq}|log record subtype", lsite, "the Sphinx log record carries no subtype=: it cannot be suppressed by type.subtype")
     else:
-        verdict(f"{cw.fq}|log record subtype", roles.classify_sub(sub_e), cw.module.site(lw[0]), "subtype= is the str, or the enum member's .value", "subtype= of the Sphinx log record not understood")
+        verdict(f"{cw.fq}|log record subtype", lu.roles.classify_sub(sub_e), lsite, "subtype= is the str, or the enum member's .value", "subtype= of the Sphinx log record not understood")
     # message nodes (docutils reporter, Sphinx system_message) carry "<message> [<type>.<subtype>]"
-    uses = _node_builders(cw, resolver)
+    uses = [(c, text, label, u) for u in units for c, text, label in _node_builders(u.fi, resolver, set(u.emitter_calls))]
     if len(uses) < 2:
         rep.error(R, f"create_warning: expected the docutils reporter call and the Sphinx node builder, found {len(uses)}")
         return
-    for c, text, label in uses:
+    for c, text, label, u in uses:
         k = f"{cw.fq}|node text carries the tag|{label}"
-        s = cw.module.site(c)
-        parts = _tag_parts(roles, text)
+        s = u.fi.module.site(c)
+        parts = _tag_parts(u.roles, text)
         if parts is None:
             rep.error(R, f"create_warning: message text of `{short(c, 50)}` is built in an idiom not understood")
             continue
         parts = _merge_text(parts)
-        holes = [p[1] for p in parts if isinstance(p, tuple)]
+        holes = [p for p in parts if isinstance(p, tuple)]
         texts = [p for p in parts if isinstance(p, str)]
         shape = ["v" if isinstance(p, tuple) else "t" for p in parts]
-        if len(holes) == 1 and _is_name(holes[0], "message") and not texts:
+        if len(holes) == 1 and _is_message(holes[0][2], holes[0][1]) and not texts:
             rep.violation(R, k, s, "a message node is built from the untagged message")
-        elif shape == ["v", "t", "v", "t", "v", "t"] and texts == [" [", ".", "]"] and _is_name(holes[0], "message"):
-            t_ok = roles.same(holes[1], type_e) or roles.classify_type(holes[1])[0] == "ok"
-            s_ok = roles.same(holes[2], sub_e) or roles.classify_sub(holes[2])[0] == "ok"
-            if t_ok and s_ok:
+        elif shape == ["v", "t", "v", "t", "v", "t"] and texts == [" [", ".", "]"] and _is_message(holes[0][2], holes[0][1]):
+            (_, h1, r1), (_, h2, r2) = holes[1], holes[2]
+            t1, s2 = r1.classify_type(h1), r2.classify_sub(h2)
+            if t1[0] == "ok" and s2[0] == "ok":
                 rep.ok(R, k, s, "'<message> [<type>.<subtype>]' with the strings of the log record")
-            elif (roles.same(holes[1], sub_e) and roles.same(holes[2], type_e)):
+            elif r1.classify_sub(h1)[0] == "ok" and r2.classify_type(h2)[0] == "ok":
                 rep.violation(R, k, s, "message tag is [subtype.type], not [type.subtype]")
             else:
-                bad = [x for x in (roles.classify_type(holes[1]), roles.classify_sub(holes[2])) if x[0] == "bad"]
+                bad = [x for x in (t1, s2) if x[0] == "bad"]
                 if bad:
                     rep.violation(R, k, s, "message tag differs from the log record's type/subtype: " + "; ".join(b[1] for b in bad))
                 else:
